@@ -497,7 +497,7 @@ func ErrID(v value) string {
 }
 
 func TupleAt(v value, i int) value { return v.(tuple)[i] }
-func IsSymVal(v value) (Sym, bool)  { s, ok := v.(Sym); return s, ok }
+func IsSymVal(v value) (Sym, bool) { s, ok := v.(Sym); return s, ok }
 
 // DynTypeName returns the dynamic type of an interface value.
 func DynTypeName(v value) string {
